@@ -1,4 +1,5 @@
 import CobraModel.Lemmas.Formulations
+import CobraModel.Model.Medium
 /-!
 # C18 — medium get/set are inverse; a minimal medium is sufficient and minimal
 
@@ -8,34 +9,7 @@ exchanges, import closed on all others) over exchange reactions written either w
 `false` for `--> met` (import capacity `upper_bound`).
 -/
 namespace C18
-open LPM
-
-structure Ex where
-  isReactant : Bool
-  lb : Rat
-  ub : Rat
-deriving DecidableEq, Repr
-
-/-- `get_active_bound` -/
-def importCap (e : Ex) : Rat := if e.isReactant then -e.lb else e.ub
-/-- the bound on the export side -/
-def exportBound (e : Ex) : Rat := if e.isReactant then e.ub else e.lb
-/-- `is_active` -/
-def isActive (e : Ex) : Bool := (!e.isReactant && decide (0 < e.ub)) || (e.isReactant && decide (e.lb < 0))
-/-- `set_active_bound` -/
-def setActive (e : Ex) (b : Rat) : Ex := if e.isReactant then { e with lb := -b } else { e with ub := b }
-/-- what the setter does to an exchange that is not listed -/
-def closeImport (e : Ex) : Ex := setActive e (min 0 (importCap e))
-
-def lookup (med : List (String × Rat)) (k : String) : Option Rat := (med.find? (fun p => p.1 == k)).map (·.2)
-
-/-- `model.medium = med` -/
-def setMedium (exs : List (String × Ex)) (med : List (String × Rat)) : List (String × Ex) :=
-  exs.map (fun p => (p.1, match lookup med p.1 with | some b => setActive p.2 b | none => closeImport p.2))
-
-/-- `model.medium` -/
-def getMedium (exs : List (String × Ex)) : List (String × Rat) :=
-  exs.filterMap (fun p => if isActive p.2 then some (p.1, importCap p.2) else none)
+open LPM MediumM
 
 theorem isActive_iff (e : Ex) : isActive e = true ↔ 0 < importCap e := by
   unfold isActive importCap
@@ -100,9 +74,79 @@ theorem import_is_split_variable (v p n : Rat) (hp : 0 ≤ p) (hn : 0 ≤ n) (hv
   · rw [max_eq_left h, max_eq_right (by linarith)]; ring
   · rw [max_eq_right h, max_eq_left (by linarith)]; ring
 
+/-! ### the indicator constraints of `minimize_components` -/
+
+theorem absR_nonneg (q : Rat) : 0 ≤ absR q := by
+  unfold absR; split <;> linarith
+
+theorem le_absR (q : Rat) : q ≤ absR q ∧ -q ≤ absR q := by
+  unfold absR; split <;> constructor <;> linarith
+
+theorem foldl_bigM_ge (exs : List (String × Ex)) (a : Rat) :
+    a ≤ exs.foldl (fun acc p => max acc (max (absR p.2.lb) (absR p.2.ub))) a ∧
+    ∀ p ∈ exs, absR p.2.lb ≤ exs.foldl (fun acc p => max acc (max (absR p.2.lb) (absR p.2.ub))) a ∧
+               absR p.2.ub ≤ exs.foldl (fun acc p => max acc (max (absR p.2.lb) (absR p.2.ub))) a := by
+  induction exs generalizing a with
+  | nil => exact ⟨le_refl _, fun p hp => by cases hp⟩
+  | cons q qs ih =>
+    simp only [List.foldl_cons]
+    obtain ⟨h1, h2⟩ := ih (max a (max (absR q.2.lb) (absR q.2.ub)))
+    refine ⟨le_trans (le_max_left _ _) h1, ?_⟩
+    intro p hp
+    rcases List.mem_cons.1 hp with e | hp
+    · subst e
+      exact ⟨le_trans (le_trans (le_max_left _ _) (le_max_right _ _)) h1, le_trans (le_trans (le_max_right _ _) (le_max_right _ _)) h1⟩
+    · exact h2 p hp
+
+/-- **big M dominates every import**: whatever way round an exchange is written, its import capacity is at most `bigM` -/
+theorem bigM_ge_import (exs : List (String × Ex)) (p : String × Ex) (hp : p ∈ exs) : importCap p.2 ≤ bigM exs := by
+  obtain ⟨hl, hu⟩ := (foldl_bigM_ge exs 0).2 p hp
+  unfold importCap bigM
+  split
+  · exact le_trans (le_absR _).2 hl
+  · exact le_trans (le_absR _).1 hu
+
+/-- with such an M the indicator row `w − y·M ≤ 0` says exactly "w = 0 unless y = 1" for every import `0 ≤ w ≤ M`: it excludes no import that the
+bounds allow, and an unused indicator forces the import to zero -/
+theorem indicator_exact (w M : Rat) (h0 : 0 ≤ w) (hM : w ≤ M) :
+    (w - 1 * M ≤ 0) ∧ (w - 0 * M ≤ 0 ↔ w = 0) := by
+  constructor
+  · linarith
+  · constructor
+    · intro h; linarith
+    · intro h; rw [h]; linarith
+
+/-- a smaller constant (say the largest `|lower_bound|` only) cuts off imports that the bounds allow -/
+theorem small_M_cuts (w M : Rat) (h : M < w) : ¬ (w - 1 * M ≤ 0) := by
+  intro h'; linarith
+
+/-- the number of indicators that must be on is the number of positive imports: any 0/1 assignment satisfying the rows switches on every
+positive import -/
+theorem indicators_cover (M : Rat) (wy : List (Rat × Rat)) (hy : ∀ p ∈ wy, p.2 = 0 ∨ p.2 = 1)
+    (hrow : ∀ p ∈ wy, p.1 - p.2 * M ≤ 0) :
+    ((wy.filter (fun p => decide (0 < p.1))).length : Rat) ≤ (wy.map (·.2)).sum := by
+  induction wy with
+  | nil => simp
+  | cons q qs ih =>
+    have ih' := ih (fun p hp => hy p (List.mem_cons_of_mem _ hp)) (fun p hp => hrow p (List.mem_cons_of_mem _ hp))
+    have hq := hy q (List.mem_cons_self ..)
+    have hr := hrow q (List.mem_cons_self ..)
+    simp only [List.filter_cons, List.map_cons, List.sum_cons]
+    by_cases hpos : 0 < q.1
+    · have : q.2 = 1 := by
+        rcases hq with e | e
+        · rw [e] at hr; linarith
+        · exact e
+      simp only [hpos, decide_true, if_true, List.length_cons, Nat.cast_add, Nat.cast_one]
+      rw [this]; linarith
+    · simp only [hpos, decide_false, Bool.false_eq_true, if_false]
+      rcases hq with e | e <;> rw [e] <;> linarith
+
 /-! ### non-vacuity -/
 def demoEx : List (String × Ex) := [("EX_a", ⟨true, -10, 5⟩), ("EX_b", ⟨false, -3, 7⟩), ("EX_c", ⟨true, -1, 2⟩)]
 example : getMedium demoEx = [("EX_a", 10), ("EX_b", 7), ("EX_c", 1)] := by decide +kernel
 example : getMedium (setMedium demoEx [("EX_b", 4), ("EX_c", 0)]) = [("EX_b", 4)] := by decide +kernel
+example : bigM demoEx = 10 := by decide +kernel
+example : bigM [("EX_p", ⟨false, 0, 1000⟩), ("EX_q", ⟨true, -20, 0⟩)] = 1000 := by decide +kernel
 
 end C18
